@@ -498,6 +498,19 @@ def _t1(ctx: Context) -> None:
             sv = starts[0].targets[0].id
             oky = srcs == sorted([f"{abuf}[{sv}:{o2}]", f"{abuf}[{sv}:]"])
     ck.check("C16.T1", oky, "tlv_array: item = buffer[start:offset of the separator], start = that offset + 2, tail = buffer[start:]", f"{ctx.fkey(a)}:slices", f"tlv_array yields {srcs}", a.loc())
+    # every separator delimits an item, an empty one included (an all-unset message encodes to zero bytes: it IS the empty
+    # slice between two separators): the start moves past a separator only after the slice before it was yielded
+    if oky:
+        acfg = ctx.cfg(a.qualname)
+        adv = [n for n in acfg.nodes if n.kind == "stmt" and n.ast is starts[0]]
+        ynodes = [n for n in acfg.nodes if any(isinstance(x, ast.Yield) and x.value is not None and src(deref(x.value)) == f"{abuf}[{sv}:{o2}]" for e in n.exprs if e is not None for x in walk_expr(e))]
+        heads = [n for n in acfg.nodes if n.kind == "for" and n.ast is loops[0]]
+        if adv and ynodes and heads:
+            p = acfg.find_path(heads[0].id, adv[0].id, avoid_nodes=[y.id for y in ynodes])
+            ck.check("C16.T1", p is None, "tlv_array: the slice before a separator is yielded whenever the start moves past that separator (empty items included)",
+                     f"{ctx.fkey(a)}:empty-item-dropped",
+                     "tlv_array can move past a separator without yielding the slice before it: an empty item (an all-unset message, zero bytes) between two "
+                     "separators is dropped and the decoded list is shorter than the encoded one", ctx.loc(a, adv[0]), acfg.render_path(p) if p else None)
 
 
 MANIFEST = {
